@@ -651,3 +651,19 @@ def first_repo_diag(stderr):
         if m:
             return rel(m.group(1)), int(m.group(2)), m.group(4)
     return "?", 0, stderr.strip().splitlines()[0] if stderr.strip() else "unknown error"
+
+
+def reexport(res, sub, prefixes, new_rule, suffix="", min_instances=0, what="facts"):
+    """copies the instances / violations of `sub` whose rule starts with one of `prefixes` into `res` under `new_rule`; returns the number of
+    instances copied (a re-exported clause with no instance at all means the donor rule no longer produces its facts: analysis broken)"""
+    n = 0
+    for i in sub.instances:
+        if i["rule"].startswith(tuple(prefixes)):
+            n += 1
+            res.instance(new_rule, i["key"], i["at"], i["detail"])
+    for v in sub.violations:
+        if v["rule"].startswith(tuple(prefixes)):
+            res.violation(new_rule, v["file"], v["function"], v["key"], v["line"], v["msg"] + suffix)
+    if n < min_instances:
+        raise AnalysisBroken("re-exported rule %s: %d %s from %s (at least %d confirmed by reading)" % (new_rule, n, what, "/".join(prefixes), min_instances))
+    return n
